@@ -1402,6 +1402,18 @@ func (p *UdpEndpointPool) InvalidateDialerNetworkType(d *dialer.Dialer, networkT
 // Called on reload to prevent stale endpoints from using pre-reload routing state.
 // Uses LoadAndDelete for atomic removal that races safely with concurrent GetOrCreate.
 func (p *UdpEndpointPool) Reset() {
+	// Exclude in-flight creations: createEndpointLocked publishes and indexes a new
+	// endpoint under its shard's createMu, so holding every createMu guarantees that
+	// no endpoint is registered in dialerIndex/dialerEpoch between the shard sweep
+	// and the index wipe below (it would be orphaned from later invalidations).
+	for i := range udpEndpointCreateShardCount {
+		p.shards[i].createMu.Lock()
+	}
+	defer func() {
+		for i := range udpEndpointCreateShardCount {
+			p.shards[i].createMu.Unlock()
+		}
+	}()
 	for i := range udpEndpointCreateShardCount {
 		shard := &p.shards[i]
 		shard.mu.Lock()
